@@ -72,6 +72,7 @@ pub fn xml_tokens() -> Vec<Vec<u8>> {
         b"<a", b"<b", b"<p:a", b"</a>", b"</b>", b">", b"/>", b" x=\"1\"", b" y='2'", b" x=", b" x", b"\"", b"t", b" ",
         b"&amp;", b"&", b"<!--", b"-->", b"<![CDATA[", b"]]>", b"<?xml version=\"1.0\"?>", b"<?pi", b"?>",
         b"<!DOCTYPE a>", b"<!DOCTYPE a [<!ENTITY e \"v\">]>", b"\xFF", b"\xC3", b":",
+        b"<_", b"</_>", b"<-.", b"<1a", b" _=\"\"",
     ];
     t.into_iter().map(|x| x.to_vec()).collect()
 }
